@@ -102,6 +102,7 @@ func constsWithPolarity(v ssa.Value, fn *ssa.Function) []constWhen {
 func checkC13(p *Prog, r *Report) {
 	ruleStatusFileOnly(p, r)
 	ruleScannerErr(p, r, "R13.11", map[string]bool{"doapprove": true, "status": true, "missing-approve": true, "main": true, "device": true, "errlog": true})
+	ruleMustCalls(p, r, "R-PH", "C13")
 	r.rule("R13.1", "Writer/reader agreement on status constants, derived from the code of both sides: the constant status.SetApprove stores for failed=false is a case of missing-approve's switch on Approve.Result whose branch takes Approve.Policy as the device's policy, and the constant for failed=true is not; the constant SetCompare stores for changed=false is a reader case taking Compare.Policy, the constant for changed=true is a reader case that clears the device policy (device is listed); SetCompare's sticky test compares with the very constant it writes for changed=true; the reader consults the compare slot only when Compare.Time is later than the accepted approve time.")
 	r.rule("R13.3", "status.Read cannot abort: it contains no panic, no call of errlog.Abort/os.Exit/log.Fatal and ignores read/decode errors, so an unreadable status decodes to the zero value; for the zero value the reader's device policy is the empty string, which is listed.")
 	r.rule("R13.4", "The reader compares the code of the observed policy with the current one for every part of the target: directories code, code/ipv6 (and code/ipv4) crossed with suffixes \"\" and \".raw\"; the old side is read through a helper that falls back to <file>.bz2.")
